@@ -226,6 +226,38 @@ func (ts *TermStore) Bin(op Op, a, b *Term) *Term {
 			return ts.Const(w, v)
 		}
 	}
+	// division/remainder by a power-of-two constant: rewrite to shifts/masks (exact, cheap to bit-blast)
+	if b.IsConst() && b.C != 0 && b.C&(b.C-1) == 0 && sext64(b.C, w) > 0 {
+		k := 0
+		for (uint64(1) << uint(k)) != b.C {
+			k++
+		}
+		if k == 0 {
+			switch op {
+			case OUdiv, OSdiv:
+				return a
+			case OUrem, OSrem:
+				return ts.Const(w, 0)
+			}
+		} else if k < w {
+			switch op {
+			case OUrem:
+				return ts.Zext(ts.Extract(a, k-1, 0), w)
+			case OUdiv:
+				return ts.Bin(OLshr, a, ts.Const(w, uint64(k)))
+			case OSrem:
+				low := ts.Extract(a, k-1, 0)
+				neg := ts.Cmp(OSlt, a, ts.Const(w, 0))
+				nz := ts.Not(ts.Eq(low, ts.Const(k, 0)))
+				zl := ts.Zext(low, w)
+				return ts.Ite(ts.And(neg, nz), ts.Bin(OOr, zl, ts.Const(w, ^(b.C-1))), zl)
+			case OSdiv:
+				neg := ts.Cmp(OSlt, a, ts.Const(w, 0))
+				adj := ts.Ite(neg, ts.Const(w, b.C-1), ts.Const(w, 0))
+				return ts.Bin(OAshr, ts.Bin(OAdd, a, adj), ts.Const(w, uint64(k)))
+			}
+		}
+	}
 	// light simplifications
 	switch op {
 	case OAdd, OOr, OXor:
